@@ -365,7 +365,11 @@ class Context(MutableMapping[Identifier, Symbol]):
                         name=symbol.name,
                         qualified_name=f"{starred.qualified_name}.{symbol.name}",
                         location=starred.location,
-                        interface=symbol.interface,
+                        interface=(
+                            symbol.interface
+                            if symbol.interface is not None
+                            else AnyCallInterface()
+                        ),
                     )
                 )
 
